@@ -372,6 +372,9 @@ class ClassUtils:
         if source.restrictions.sequence is not None:
             target.restrictions.sequence = source.restrictions.sequence
 
+        if not target.restrictions.path:
+            target.restrictions.path = source.restrictions.path
+
     @classmethod
     def rename_duplicate_attributes(cls, target: Class):
         """Find and rename attributes with the same slug."""
